@@ -366,6 +366,8 @@ var opTable = map[string][][2]string{
 	"objmap":    {{"unser", "rand"}, {"unser", "rand"}, {"unser", "bad"}, {"valid", "rand"}, {"ser", "rand"}},
 	"objstruct": {{"unser", "rand"}, {"unser", "rand"}, {"unser", "rand"}, {"unser", "bad"}, {"ser", "full"}, {"valid", "full"}},
 	"mapcoll":   {{"unser", "collide"}, {"unser", "single"}, {"unser", "bad"}, {"unser", "typed_collide"}},
+	"patnil":    {{"valid", "nil_item"}, {"ser", "nil_item"}, {"valid", "good"}},
+	"emptydef":  {{"ser", "empty_a"}, {"valid", "empty_a"}, {"ser", "empty_b"}, {"valid", "empty_b"}},
 	"listarg":   {{"unser", "same_type"}, {"unser", "same_type_bad"}, {"unser", "other_type"}},
 	"objreq": {{"compat", "data_partial"}, {"compat", "data_full"}, {"compat", "props_partial"}, {"compat", "schema_partial"},
 		{"compat", "schema_full"}, {"unser", "data_partial"}, {"unser", "data_full"}},
